@@ -66,7 +66,14 @@ def make_case(unit):
     transforms = {}
     if g.chance(0.4):
         cases.attach_insertions(g, facets, transforms, hide_some=False)
-    spec = sim.CubeSpec(facets, g.weights(N, wmode), ())
+    k = gen.stratum(ID, i, "vc", 6)
+    if k < 2 and "numarr" not in template:
+        # a mean in the response: counts are valid counts (k == 1: a weighted response
+        # with unweighted valid counts only - index and baseline come from those alone)
+        mset = ("mean", "valid_counts") + (("vc_unweighted_only",) if k == 1 else ())
+        spec = sim.CubeSpec(facets, g.weights(N, wmode), mset, g.num(N))
+    else:
+        spec = sim.CubeSpec(facets, g.weights(N, wmode), ())
     if g.chance(0.45):
         # display transforms: a row whose members all miss the column variable is *pruned*,
         # yet it still belongs to the unconditional baseline of the rows that stay
@@ -125,6 +132,10 @@ def _uncond_share(V, r):
     o = V.o
     role, var = o.facets[V.R]
     m = np.ones(o.N, dtype=bool)
+    if o.xok is not None:
+        # the response's counts are valid counts (a mean is in the response): numerator and
+        # baseline alike count the respondents with a valid value of the measured variable
+        m &= o.xok
     if V.fixed:
         # restricted to the table element (CAT: T = t; MR: selected item t)
         trole, tvar = o.facets[0]
